@@ -249,3 +249,32 @@ Example conc_ok_example :
   conc_ok JitWitness.cfg_f (init_state JitWitness.cfg_f) []
     [(0%nat, OAlloc 100); (1%nat, OAlloc 5000); (0%nat, OShrink 0 64 64); (1%nat, OQuery 0 64); (1%nat, ORelease 0 192); (0%nat, ORelease 0 64)].
 Proof. apply conc_okb_sound. vm_compute. reflexivity. Qed.
+
+(* ------------------------------------------------------------------ completeness of the executable discipline check *)
+Lemma in_owns : forall own e, In e own -> owns own e = true.
+Proof.
+  intros own [i k] H. unfold owns. apply existsb_exists. exists (i, k). split; [assumption|].
+  unfold own_eqb. cbn. rewrite Nat.eqb_refl. rewrite (proj2 (key_eqb_eq k k) eq_refl). reflexivity.
+Qed.
+
+Lemma conc_okb_complete : forall c ops st own, conc_ok c st own ops -> conc_okb c st own ops = true.
+Proof.
+  induction ops as [|[i o] r IH]; intros st own H; cbn [conc_okb conc_ok] in *; [reflexivity|].
+  destruct o.
+  - destruct H as [H1 [H2 H3]]. rewrite (proj2 (Z.leb_le _ _) H1), (proj2 (Z.leb_le _ _) H2). cbn. apply IH; assumption.
+  - destruct (find_block id (blocks st)); [|contradiction]. destruct H as [H1 H2].
+    rewrite (in_owns _ _ H1). cbn. apply IH; assumption.
+  - destruct (find_block id (blocks st)); [|contradiction]. destruct H as [H1 [H2 H3]].
+    rewrite (in_owns _ _ H1), (proj2 (Z.leb_le _ _) H2). cbn. apply IH; assumption.
+  - apply IH; assumption.
+  - contradiction.
+Qed.
+
+(* the ownership discipline is DECIDABLE: the executable check accepts exactly the disciplined histories *)
+Theorem conc_okb_iff : forall c ops st own, conc_okb c st own ops = true <-> conc_ok c st own ops.
+Proof. intros. split; [apply conc_okb_sound | apply conc_okb_complete]. Qed.
+
+(* a history that breaks the discipline (thread 1 releases the span of thread 0) is rejected *)
+Example conc_ok_negative_example :
+  ~ conc_ok JitWitness.cfg_f (init_state JitWitness.cfg_f) [] [(0%nat, OAlloc 100); (1%nat, ORelease 0 64)].
+Proof. intros H. apply conc_okb_complete in H. vm_compute in H. discriminate. Qed.
